@@ -78,6 +78,18 @@ end
 /-- the schema `generate()` hands to the JSON-Schema parser for the raw document `v` -/
 def infer (v : Json) : Node := add .empty v
 
+/-- the keys of the mapping `next(csv.DictReader(f))` in iteration order, for a header without duplicates: the header
+names (a missing cell is filled with `restval`, the key stays), then the rest key `None` when the row has surplus cells -/
+def dictReaderKeys (header : List Key) (row : List (List Char)) : List (Option Key) :=
+  header.map some ++ (if header.length < row.length then [none] else [])
+
+/-- `get_header_and_first_line` of the CSV branch of `generate()`:
+`dict(zip(csv_reader.fieldnames, next(csv_reader)))`. Iterating the row mapping yields its KEYS, and `zip` stops at the
+shorter side, i.e. at the end of the header: every header name is paired with a string, no matter how many cells the row
+has (a surplus cell has no column; the rest key `None` is never reached). Domain: header names pairwise distinct. -/
+def csvSample (header : List Key) (row : List (List Char)) : Json :=
+  .obj ((header.zip (dictReaderKeys header row)).filterMap (fun p => p.2.map (fun k => (p.1, Json.str k))))
+
 mutual
 /-- JSON-Schema validity of `w` against `to_schema n`, for the schema shapes inference produces:
 `{}` accepts everything; otherwise `w` must be accepted by the alternative of its own type;
